@@ -4,6 +4,7 @@
  * every returned status, output buffer, getter value and dependency event is compared immediately, and the
  * other live slots are re-observed after every operation. */
 #include "pv.h"
+#include <sys/mman.h>
 
 #define NSLOT 6
 typedef struct slot { bool live; polyseed_data* s; pv_mseed m; int nblocks; } slot;      /* nblocks: what the constructor kept from the allocator (>= 1; one today) */
@@ -381,8 +382,41 @@ static void run_direct(uint64_t idx, pv_rng* rng) {
     else PV_DISTINCT("nontrivial", pv_mix(pv_mseed_hash(&m), idx ^ 0xd12ec7));
 }
 
+
+/* ---------------------------------------------------------------- one operation with an argument of more than 2^32 bytes
+ * "every finite sequence of API operations": a decode whose string is a valid phrase followed by one endless token, of a total
+ * length that is exactly "the phrase" modulo 2^32, sits between ordinary operations on live seeds; the model says NUM_WORDS,
+ * leaves every live seed as it was, and the following operations behave as ever */
+static uint64_t n_hugeop(void) { return pv.scale_pct >= 100 ? 1 : 0; }
+static void run_hugeop(uint64_t idx, pv_rng* rng) {
+    (void)idx;
+    pv_case_watchdog(600);
+    pv_api_enable_features(3);
+    pv_mseed m; pv_gen_mseed(rng, 3, true, &m); unsigned coin = pv_gen_coin(rng); pv_mlang* L = pv_lang_by_name("English");
+    polyseed_data* live = pv_seed_from_model(&m); if (!live) return;
+    char ph[2048]; size_t pl = pv_m_encode(&m, L, coin, ph, sizeof ph);
+    uint64_t n = (1ull << 32) + pl, maplen = 0; char* big = pv_map_repeated(n, &maplen);
+    if (!big) { PV_COUNT("hugeop.skipped(no address space)", 1); pv_api_free(live); return; }
+    memcpy(big, ph, pl); big[pl] = ' ';
+    pv_cur.in_ptr = NULL;
+    for (int which = 0; which < 2; ++which) {
+        polyseed_data* s = NULL; const polyseed_lang* lo = NULL; int st;
+        if (which == 0) { pv_world_begin("polyseed_decode"); st = polyseed_decode(big, (polyseed_coin)coin, &lo, &s); pv_world_end(); }
+        else { pv_world_begin("polyseed_decode_explicit"); st = polyseed_decode_explicit(big, (polyseed_coin)coin, L->lib, &s); pv_world_end(); }
+        PV_COUNT("evaluations", 1);
+        if (st != POLYSEED_ERR_NUM_WORDS) { pv_violation("C13/huge-argument/status-differs-from-model", "%s of a %llu-byte string (a valid phrase followed by one endless token): %s, model ERR_NUM_WORDS", which ? "decode_explicit" : "decode", (unsigned long long)n, pv_status_name(st)); if (st == POLYSEED_OK) pv_api_free(s); }
+        else PV_COUNT("hugeop.status_equals_model", 1);
+    }
+    munmap(big, maplen);
+    /* the live seed and the library behave as before */
+    uint8_t a[32], b[32]; pv_api_store(live, a); pv_m_image(&m, b);
+    char* out = malloc(POLYSEED_STR_SIZE); pv_api_encode(live, L->lib, coin, out);
+    if (memcmp(a, b, 32) || strcmp(out, ph)) pv_violation("C13/huge-argument/later-operations-differ", "after the huge decode a live seed stores/encodes differently from the model");
+    else { PV_COUNT("hugeop.later_operations_equal_model", 1); PV_DISTINCT("nontrivial", pv_mix(0x4096e, n)); }
+    free(out); pv_api_free(live);
+}
 static void fini(void) { reset_all(); if (pv.scale_pct >= 100) pv_set_flag(pv.tier ? "exhaustive.all_sequences_up_to_length_5" : "exhaustive.all_sequences_up_to_length_4", true); }
 int main(int argc, char** argv) {
-    static const pv_section secs[] = { { "walks", n_walks, run_walks }, { "endurance", n_endur, run_endur }, { "exhaustive", n_exh, run_exh }, { "direct", n_direct, run_direct } };
-    return pv_main(argc, argv, "C13", secs, 4, init, fini);
+    static const pv_section secs[] = { { "walks", n_walks, run_walks }, { "endurance", n_endur, run_endur }, { "exhaustive", n_exh, run_exh }, { "direct", n_direct, run_direct }, { "hugeop", n_hugeop, run_hugeop } };
+    return pv_main(argc, argv, "C13", secs, 5, init, fini);
 }
